@@ -22,7 +22,7 @@ man = dict(
     version=1,
     setup_cmd="python3 tools/setup.py",
     hooks=dict(guard="ST_VERIF", enable="none needed: no source hooks are used (harnesses fork per worker and attribute aborts through a shared case counter)",
-               baseline_off_cmd="cmake --build /repo/_build && ctest --test-dir /repo/_build -j8 --timeout 900",
+               baseline_off_cmd="cmake --build /repo/_build && /repo/_build/test/st_gtests",
                source_commits=[], add_only=True),
     engines=[dict(name="lean4-proof+correspondence", path="tools/check.py", serves_properties=sorted(PROPS),
                   kind_free_text="Lean 4 theorems about a hand-written model (lean/StVerif) + differential correspondence check of the model's "
